@@ -34,7 +34,7 @@ class Check(PropertyCheck):
     pid = "C13"
     props_module = "Properties.Properties_C13"
     extra_targets = ["Extract/ExtractSchedC.vo"] + (list(getattr(schedx_part, "extra_targets", [])) if schedx_part else [])
-    gen_files = ["SchedCTab.v"] + (list(getattr(schedx_part, "gen_files", [])) if schedx_part else [])
+    gen_files = ["SchedCTab.v", "DecTabs.v", "CrcTab.v", "Consts.v"] + (list(getattr(schedx_part, "gen_files", [])) if schedx_part else [])
     extra_props = list(getattr(schedx_part, "extra_props_c13", [])) if schedx_part else []
     trusted_base = [
         "Coq 8.16.1 kernel (coqc); vm_compute in one Example; no axioms",
